@@ -46,7 +46,7 @@ BAD_LIMITS = ["0", "-1", "-5", "0.5", "1.5", "2.25", "-0.5", "1e300", "-1e300", 
 def gen_cases(ctx, tier):
     rng = ctx.rng
     if tier == "quick":
-        big = [(4, 2500), (16, 625), (8, 1250), (2, 5000)]
+        big = [(4, 1500), (16, 400), (8, 700), (2, 2500), (16, 250), (3, 1500)]
         grid = [(1, 1), (1, 50), (2, 1000), (3, 7), (16, 100), (5, 333)]
         extra, draws, nlim = 6, 60, 120
     else:
